@@ -10,7 +10,9 @@ use swiftness_transcript::verif;
 
 pub fn table_commitment(ncols: u64, height: u64, nvf: u64, root: Felt) -> TCommitment {
     let v = VConfig { height: Felt::from(height), n_verifier_friendly_commitment_layers: Felt::from(nvf) };
-    TCommitment { config: TConfig { n_columns: Felt::from(ncols), vector: v.clone() }, vector_commitment: VCommitment { config: v, commitment_hash: root } }
+    // model stand-in: c + k * 1000000 is the declared count c + 2^(64k)
+    let n_columns = if ncols >= 1_000_000 { Felt::from(ncols % 1_000_000) + Felt::TWO.pow(64 * (ncols / 1_000_000)) } else { Felt::from(ncols) };
+    TCommitment { config: TConfig { n_columns, vector: v.clone() }, vector_commitment: VCommitment { config: v, commitment_hash: root } }
 }
 pub fn twit(a: Vec<Felt>) -> TWitness { TWitness { vector: VWitness { authentications: a } } }
 
